@@ -244,9 +244,11 @@ def flag_rule(ctx):
             r.ok(f"Anisotropic dim {dim}: Voigt input is scaled by kappa_i*kappa_j, Kelvin-Mandel input is kept, both reach the return")
 
 
-def lazy_rule(ctx):
+def descriptor_rule(ctx, r=None):
+    """the _Parameter descriptor raises Need_Update on every completing path of __set__ and hands out copies"""
     repo = ctx.repo
-    r = ctx.rule("R11.5", "lazy update typestate: parameters are _Parameter descriptors whose __set__ raises Need_Update; C/S getters update when dirty and clear the flag; every _Update assigns both C and S; setters reset the cached square roots", min_instances=8)
+    if r is None:
+        r = ctx.rule("R11.5", "parameter descriptors: __set__ raises Need_Update on the owner on every completing path; __get__ hands out a copy", min_instances=2)
     pcls = repo.cls(f"{PARAMS}._Parameter")
     fset = pcls.methods["__set__"]
     r.instance(fn=fset.qualname)
@@ -294,6 +296,13 @@ def lazy_rule(ctx):
         r.ok("_Parameter.__get__ hands out a copy: the stored value cannot be edited behind the dirty flag")
     else:
         r.fail(fget.qualname, "get-copy", fget.file, fget.lineno, "_Parameter.__get__", "reading a parameter returns the stored object itself: `law.E[0] = x` would change the law without raising Need_Update")
+    return pcls
+
+
+def lazy_rule(ctx):
+    repo = ctx.repo
+    r = ctx.rule("R11.5", "lazy update typestate: parameters are _Parameter descriptors whose __set__ raises Need_Update; C/S getters update when dirty and clear the flag; every _Update assigns both C and S; setters reset the cached square roots", min_instances=8)
+    pcls = descriptor_rule(ctx, r)
     base = repo.cls(f"{LAWS}._Elastic")
     for ci in [base] + repo.subclasses(base):
         for name, expr in ci.class_attrs.items():
